@@ -809,6 +809,7 @@ class Polyhedron(Shape3D):
             # that the shape is reoriented rather than mirrored.
             principal_axes[:, 0] *= -1
         self._vertices = np.dot(self._vertices, principal_axes)
+        self._find_equations()
 
     def compute_form_factor_amplitude(self, q, density=1.0):  # noqa: D102
         """Calculate the form factor intensity.
